@@ -411,3 +411,21 @@ def include_cases(rnd, n):
     yield {"lines": L(" NOP", " INCLUDE nosuch.asm"), "files": {"other.asm": L(" NOP")}, "tag": "include-missing", "meta": {}}
     yield {"lines": L(" INCLUDE a.asm"), "files": {"a.asm": L(" NOP", " INCLUDE a.asm")}, "tag": "include-cycle", "meta": {}}
     yield {"lines": L(" INCLUDE a.asm"), "files": {"a.asm": L(" INCLUDE b.asm"), "b.asm": L(" INCLUDE a.asm")}, "tag": "include-cycle", "meta": {}}
+
+
+def stress_cases(rnd):
+    """inputs that used to end in internal errors (kept as a corpus-like stream for C13), and their neighbours"""
+    L_ = L
+    progs = [
+        [" ORG $FFFF", " NOP", " NOP"], [" ORG $FFFE", " LDX #1"], [" ORG $FFF0", " RMB 16"], [" ORG $FFF0", " RMB 17"], [" ORG $FFF0", " FCC /0123456789ABCDEF0/"],
+        [" LBRA L", " RMB 40000", " ORG $0", " RMB 40000", "L NOP"], ["L NOP", " RMB 40000", " ORG $0", " RMB 40000", " LBRA L"],
+        [" LBSR L", " RMB 65535", "L NOP"], [" ORG $8000", "L NOP", " RMB 32000", " LBRA L"],
+        ["START NOP", " LDX START/0"], ["START NOP", " LDX START*5"], [" ORG $4000", "S NOP", " LDX S*5"], ["S NOP", " LEAX S/0,PCR"], ["S NOP", " LEAX S*3,PCR"],
+        ["Z EQU 0", " LDA #5/Z"], [" LDA #5/0"], ["Z EQU 0", " LDX $4000/Z"], [" LDA $10/0,X"], ["S NOP", " LDA S-20000"], [" ORG $10", "S NOP", " LDX #S-17"],
+        ["MSG FCC \"A\tB\"", " NOP"], ["MSG FCC \"\t\"", " NOP"], ["MSG FCC /\t\t\t/"], ["R EQU 1+2", " LDX #R"], ["R EQU Q", "Q EQU 5", " LDA R"],
+        ["L NOP", " LDA L,X"], ["L NOP", " LDA [L,Y]"], ["L NOP", " LDA L+1,X"], [" FCB 1,300"], [" FCB 1,-129"], [" FDB 1,70000"], [" FCB"], [" FDB"], [" RMB"], [" ORG"],
+        [" END"], [" NAM"], [" SETDP"], ["X EQU"], [" BRA $12345"], [" LDA []"], [" LDA [,]"], [" FCC x"], [" FCC"], [" INCLUDE"], [" TFR"], [" PSHS"],
+        ["HERE BRA HERE"], ["HERE LBRA HERE"], ["H LDA H,PCR"], ["H LEAX [H,PCR]"], [" BRA 5"], ["C EQU 5", " BRA C"],
+    ]
+    for p in progs:
+        yield {"lines": L_(*p), "tag": "stress", "meta": {}}
